@@ -9,9 +9,11 @@ package main
 //
 // Exec puts the two vectors into mresults.MetricsResult{MetricName, Results} and calls the REAL helper.  Model:
 // lean/SigModel/Model/PromqlBin.lean (theorems Props.C09 §6).  Property checked on the real code, independent of the
-// model, when every id starts with the metric name of its vector (label part = the rest of the id): the ids of the
-// answer are exactly the left ids whose LABEL SET occurs on the right (arithmetic, comparison, and), those whose
-// label set does not (unless), resp. all left ids plus the right ids whose label set no left id has (or).  The label
+// model, when every id starts with the metric name of its vector (label part = the rest of the id) and no label set
+// occurs twice within a vector: the ids of the answer are exactly the left ids whose LABEL SET occurs on the right
+// (arithmetic, comparison, and) with a sample exactly (comparison filters: at most) at the timestamps BOTH series have;
+// `unless`: the left samples at the timestamps the partner series does not have; `or`: all left samples plus the right
+// samples at the timestamps at which no left series of the same label set has one (repair c09-19).  The label
 // set of a label part is the multiset of its comma-separated items (binopLabelSet): the order of the labels and a
 // comma behind the last one do not matter (repair c09-15; before it the id strings were compared).
 
@@ -33,7 +35,7 @@ import (
 
 func init() {
 	register(&Suite{Name: "promqlbin", Gen: genBinop, Exec: execBinop,
-		Rule: "two result vectors (metric names that are prefixes of each other, equal, empty, containing { or ,) × 0–5 series per side whose ids are name + label part; label parts `{k:v,…` with values over the alphabet { } = \" \\ space , : / unicode and empty, shared between the sides by construction (same part / part differing in one byte / part with the other side's name inside) plus a small share of ids that do not start with the name × 15 operators (+ - * / % ^, 6 comparisons with and without bool, and/or/unless) × integer values incl. 0 divisors and timestamps present on one side only; non-trivial = both sides non-empty and at least one label part on both sides"})
+		Rule: "two result vectors (metric names that are prefixes of each other, equal, empty, containing { or ,) × 0–5 series per side whose ids are name + label part; label parts `{k:v,…` with values over the alphabet { } = \" \\ space , : / unicode and empty, shared between the sides by construction (same part / part differing in one byte / part with the other side's name inside) plus a small share of ids that do not start with the name × 15 operators (+ - * / % ^, 6 comparisons with and without bool, and/or/unless) × integer values incl. 0 divisors and timestamps present on one side only (samples judged per timestamp); non-trivial = both sides non-empty and at least one label part on both sides"})
 }
 
 var binopOps = map[string]sutils.LogicalAndArithmeticOperator{
@@ -326,8 +328,10 @@ func execBinop(line string) Result {
 			switch {
 			case math.IsNaN(v):
 				ps = append(ps, fmt.Sprintf("%d=nan", t))
-			case math.IsInf(v, 0):
+			case math.IsInf(v, 1):
 				ps = append(ps, fmt.Sprintf("%d=inf", t))
+			case math.IsInf(v, -1):
+				ps = append(ps, fmt.Sprintf("%d=-inf", t))
 			default:
 				rt := new(big.Rat).SetFloat64(v)
 				ps = append(ps, strconv.Itoa(t)+"="+rt.Num().String()+"/"+rt.Denom().String())
@@ -342,61 +346,132 @@ func execBinop(line string) Result {
 	wf := true
 	lparts, rparts := map[string]bool{}, map[string]bool{}
 	lsets, rsets := map[string]bool{}, map[string]bool{}
+	partOK := func(p string) bool { return p == "" || p[0] == '{' } // a label part: empty, or "{…"
 	for _, s := range lv {
-		if !strings.HasPrefix(s.id, ln) {
+		if !strings.HasPrefix(s.id, ln) || !partOK(strings.TrimPrefix(s.id, ln)) {
 			wf = false
 		}
 		lparts[strings.TrimPrefix(s.id, ln)] = true
 		lsets[binopLabelSet(strings.TrimPrefix(s.id, ln))] = true
 	}
 	for _, s := range rv {
-		if !strings.HasPrefix(s.id, rn) || s.id == "" {
+		if !strings.HasPrefix(s.id, rn) || s.id == "" || !partOK(strings.TrimPrefix(s.id, rn)) {
 			wf = false
 		}
 		rparts[strings.TrimPrefix(s.id, rn)] = true
 		rsets[binopLabelSet(strings.TrimPrefix(s.id, rn))] = true
 	}
 	shared := 0
+	// right label sets must be pairwise different for the partner to be determined (a vector never holds two series of one label set)
+	rdup := false
+	rOfSet := map[string]binSeries{}
+	for _, s := range rv {
+		ls := binopLabelSet(strings.TrimPrefix(s.id, rn))
+		if _, ok := rOfSet[ls]; ok {
+			rdup = true
+		}
+		rOfSet[ls] = s
+	}
+	ldup := false
+	lIDsOfSet := map[string][]binSeries{}
+	for _, s := range lv {
+		ls := binopLabelSet(strings.TrimPrefix(s.id, ln))
+		if len(lIDsOfSet[ls]) > 0 {
+			ldup = true
+		}
+		lIDsOfSet[ls] = append(lIDsOfSet[ls], s)
+	}
 	if wf {
-		want := map[string]bool{}
 		for p := range lparts {
-			has := rsets[binopLabelSet(p)]
-			if has {
+			if rsets[binopLabelSet(p)] {
 				shared++
+			}
+		}
+	}
+	if wf && !rdup && !ldup {
+		// PER TIMESTAMP: want[id] = the timestamps at which the answer must have a sample (comparison filters: may have one)
+		isFilter := f[2] == "0" && (f[1] == "eq" || f[1] == "ne" || f[1] == "gt" || f[1] == "lt" || f[1] == "ge" || f[1] == "le")
+		tsSet := func(s binSeries) map[int64]bool {
+			m := map[int64]bool{}
+			for _, tv := range s.pts {
+				m[tv[0]] = true
+			}
+			return m
+		}
+		want := map[string]map[int64]bool{}
+		for _, s := range lv {
+			part := strings.TrimPrefix(s.id, ln)
+			rs, has := rOfSet[binopLabelSet(part)]
+			rts := tsSet(rs)
+			w := map[int64]bool{}
+			for t := range tsSet(s) {
+				switch f[1] {
+				case "or":
+					w[t] = true
+				case "unless":
+					if !has || !rts[t] {
+						w[t] = true
+					}
+				default:
+					if has && rts[t] {
+						w[t] = true
+					}
+				}
 			}
 			switch f[1] {
 			case "or":
-				want[ln+p] = true
+				want[s.id] = w
 			case "unless":
-				if !has {
-					want[ln+p] = true
+				if len(w) > 0 {
+					want[s.id] = w
 				}
 			default:
 				if has {
-					want[ln+p] = true
+					want[s.id] = w
 				}
 			}
 		}
-		clash := false // `or` writes a right series under its own id: an id that both sides use for different label sets
+		clash := false // `or` writes a right series under its own id: an id that both sides use
 		if f[1] == "or" {
-			for p := range rparts {
-				if !lsets[binopLabelSet(p)] {
-					if want[rn+p] {
-						clash = true
+			for _, s := range rv {
+				ls := binopLabelSet(strings.TrimPrefix(s.id, rn))
+				var lts map[int64]bool
+				if l := lIDsOfSet[ls]; len(l) > 0 {
+					lts = tsSet(l[0])
+				}
+				for t := range tsSet(s) {
+					if !lts[t] {
+						if want[s.id] == nil {
+							want[s.id] = map[int64]bool{}
+						} else if _, isLeft := lparts[strings.TrimPrefix(s.id, ln)]; isLeft && strings.HasPrefix(s.id, ln) {
+							clash = true
+						}
+						want[s.id][t] = true
 					}
-					want[rn+p] = true
 				}
 			}
 		}
 		var missing, extra []string
-		for id := range want {
+		for id, w := range want {
 			if !got[id] {
 				missing = append(missing, id)
+				continue
+			}
+			for t := range w {
+				if _, ok := final[id][uint32(t)]; !ok && !isFilter {
+					missing = append(missing, fmt.Sprintf("%s@%d", id, t))
+				}
 			}
 		}
-		for id := range got {
-			if !want[id] {
+		for id, pts := range final {
+			if want[id] == nil {
 				extra = append(extra, id)
+				continue
+			}
+			for t := range pts {
+				if !want[id][int64(t)] {
+					extra = append(extra, fmt.Sprintf("%s@%d", id, t))
+				}
 			}
 		}
 		if (len(missing) > 0 || len(extra) > 0) && !clash {
@@ -406,7 +481,7 @@ func execBinop(line string) Result {
 			if f[1] == "and" || f[1] == "or" || f[1] == "unless" {
 				cls = f[1]
 			}
-			fails = append(fails, PropFail{Sig: "promql-binop/label-set-matching/" + cls, Msg: fmt.Sprintf("%q %s %q: series %q missing from the answer, %q not expected (a series must find the series of the other vector that has the same label set)", ln, f[1], rn, trunc(strings.Join(missing, " ; "), 300), trunc(strings.Join(extra, " ; "), 300))})
+			fails = append(fails, PropFail{Sig: "promql-binop/label-set-matching/" + cls, Msg: fmt.Sprintf("%q %s %q: series / samples %q missing from the answer, %q not expected (a series must find the series of the other vector that has the same label set, and the operator works on the samples of one timestamp)", ln, f[1], rn, trunc(strings.Join(missing, " ; "), 300), trunc(strings.Join(extra, " ; "), 300))})
 		}
 	}
 	tg := []string{"op=" + f[1], fmt.Sprintf("wellformed=%v", wf)}
